@@ -1,9 +1,131 @@
+/-
+C38 — update metadata parsing is total and decodes JSON strings correctly.
+
+Property theorems about the model `EphVerif.UpdateJson` (src/core/UpdateCheck.cpp after the three
+C38 repairs) against the specification `EphVerif.JsonSpec` (RFC 8259 strings, RFC 3629 UTF-8) and
+`EphVerif.C38Spec` (what the parsed tree / the reported metadata must be).
+Helper lemmas: Lemmas/C38Total.lean, Lemmas/C38Strings.lean, Lemmas/C38Metadata.lean.
+-/
 import EphVerif.Model.UpdateJson
 import EphVerif.Spec.JsonString
+import EphVerif.Spec.UpdateJson
+import EphVerif.Lemmas.C38Metadata
 
 namespace EphVerif.C38
+open EphVerif.UpdateJson EphVerif.JsonSpec EphVerif.C38Spec EphVerif.C38L
 
-/-- generated constant obligation: the nesting limit of the repaired parser -/
+/-- generated constant obligation: the nesting limit of the repaired parser is the 128 the
+    theorems below name -/
 theorem maxJsonDepth_eq : EphVerif.Gen.C38.kMaxJsonDepth = 128 := by decide
+
+/-- **C38.total** — for every byte string, `parse_update_metadata` terminates (the model is a total
+    function whose loops run on fuel `size + 1`) with success or with an error message: it never
+    reads outside the document (`oob`) and no loop is still running when the fuel is exhausted
+    (`outOfFuel`), because every loop iteration advances the cursor. -/
+theorem C38_total (inp : Input) :
+    (∃ m, parseUpdateMetadata inp = .ok m) ∨ (∃ msg, parseUpdateMetadata inp = .err msg) := by
+  have h := safe_parseUpdateMetadata inp
+  cases hr : parseUpdateMetadata inp with
+  | ok m => exact Or.inl ⟨m, rfl⟩
+  | err msg => exact Or.inr ⟨msg, rfl⟩
+  | oob => rw [hr] at h; exact h.elim
+  | outOfFuel => rw [hr] at h; exact h.elim
+
+/-- the same for the JSON reader alone, at any starting position inside the document and any
+    nesting budget, with the progress invariant that is the termination argument: the cursor
+    stays inside the document and never moves back -/
+theorem C38_total_value (inp : Input) (d pos : Nat) (hpos : pos ≤ inp.size) :
+    (∃ v p', parseValue inp d pos = .ok (v, p') ∧ pos ≤ p' ∧ p' ≤ inp.size) ∨
+    (∃ msg, parseValue inp d pos = .err msg) := by
+  have h := safe_parseValue inp d pos hpos
+  cases hr : parseValue inp d pos with
+  | ok r => rw [hr] at h; exact Or.inl ⟨r.1, r.2, rfl, h⟩
+  | err msg => exact Or.inr ⟨msg, rfl⟩
+  | oob => rw [hr] at h; exact h.elim
+  | outOfFuel => rw [hr] at h; exact h.elim
+
+/-- **C38.depth** (accepted documents) — a document that parses is nested at most 128 containers
+    deep: the recursion `parse_value → parse_object/parse_array → parse_value` never went deeper. -/
+theorem C38_depth (inp : Input) (v : JV) (h : parseDocument inp = .ok v) : DepthLe 128 v := by
+  have := (parseDocument_ok h).2
+  rwa [maxJsonDepth_eq] at this
+
+/-- **C38.depth** (rejected documents) — every input that opens more than 128 arrays in a row, of
+    whatever length (10^6 `[` included), is refused with the nesting error after descending exactly
+    to the limit; the recursion depth is bounded by the limit on failing inputs too (the model's
+    recursion is structural on the remaining budget, which starts at 128). -/
+theorem C38_depth_reject (n : Nat) (rest : List Nat) (hn : 128 < n) :
+    parseDocument (List.replicate n 0x5B ++ rest).toArray = .err "JSON nesting too deep" :=
+  deep_document_reject n rest (by rw [maxJsonDepth_eq]; exact hn)
+
+/-- **C38.strings** (whole tree) — on success every string of the parsed tree, values and member
+    names alike, is the RFC 8259 decoding (escapes, surrogate pairs → one code point, UTF-8 per
+    RFC 3629) of the string literal that starts at the recorded offset of the document. -/
+theorem C38_strings_tree (inp : Input) (v : JV) (h : parseDocument inp = .ok v) : AllStr (StrAt inp) v :=
+  (parseDocument_ok h).1
+
+/-- **C38.strings** — on success each reported field is the decoding of the corresponding JSON
+    string of the document: `version`, `tag`, `commit`, `channel`, `generated_at` are the first
+    members of those names of the root object (string literals); `notes_url` likewise when it is a
+    string; every download entry comes from a member of `downloads` whose value is an object, with
+    the platform the decoding of the member name and `url`, `arch`, `format`, `sha256` the decodings
+    of that object's string members (empty / absent when there is no such string member). -/
+theorem C38_strings (inp : Input) (m : Metadata) (h : parseUpdateMetadata inp = .ok m) :
+    ∃ ms dls, parseDocument inp = .ok (.obj ms) ∧
+      FieldIs inp ms "version" m.version ∧ FieldIs inp ms "tag" m.tag ∧ FieldIs inp ms "commit" m.commit ∧
+      FieldIs inp ms "channel" m.channel ∧ FieldIs inp ms "generated_at" m.generatedAt ∧
+      OptFieldIs inp ms "notes_url" m.notesUrl ∧
+      findMember ms (ascii "downloads") = some (.obj dls) ∧ m.downloads ≠ [] ∧
+      ∀ d ∈ m.downloads, DownloadIs inp dls d :=
+  parseUpdateMetadata_ok h
+
+/-- the string reader agrees with the RFC 8259 decoder wherever it is invoked -/
+theorem C38_string_literal (inp : Input) (pos p' : Nat) (s : List Nat) (h : parseString inp pos = .ok (s, p')) :
+    StrAt inp pos s := parseString_ok h
+
+/-- `append_utf8`'s shifts and masks are RFC 3629 for every Unicode scalar value -/
+theorem C38_utf8 (cp : Nat) (h1 : cp < 0x110000) (h2 : ¬(0xD800 ≤ cp ∧ cp ≤ 0xDFFF)) :
+    utf8Encode cp = some (appendUtf8 cp) := utf8Encode_appendUtf8 cp h1 h2
+
+/-! ### non-vacuity -/
+
+def bytesOf (s : String) : List Nat := s.toList.map Char.toNat
+
+def isErr {α : Type} (r : Res α) (msg : String) : Bool :=
+  match r with
+  | .err m => m == msg
+  | _ => false
+
+/-- a document whose `version` is the surrogate pair `\uD83D\uDE00` (U+1F600) -/
+def docSurrogate : Input :=
+  (bytesOf "{\"version\":\"\\uD83D\\uDE00\",\"tag\":\"t\",\"commit\":\"c\",\"channel\":\"s\",\"generated_at\":\"g\",\"downloads\":{\"l\":{\"url\":\"u\\n\"}}}").toArray
+
+/-- it is accepted, and `version` is the 4-byte UTF-8 sequence F0 9F 98 80 (not CESU-8) -/
+example : parseUpdateMetadata docSurrogate =
+    .ok { version := [0xF0, 0x9F, 0x98, 0x80], tag := [0x74], commit := [0x63], channel := [0x73], generatedAt := [0x67],
+          notesUrl := none,
+          downloads := [{ platform := [0x6C], url := [0x75, 0x0A], sha256 := none, arch := [], format := [] }] } := by
+  decide +kernel
+
+/-- the specification decodes the same literal to the same bytes -/
+example : decodeStr false (bytesOf "\\uD83D\\uDE00\"rest") = some ([0xF0, 0x9F, 0x98, 0x80], bytesOf "rest") := by
+  decide +kernel
+
+/-- lone surrogates are undecodable in the specification and rejected by the model -/
+example : decodeStr false (bytesOf "\\uD83D\"") = none ∧ decodeStr false (bytesOf "\\uDE00\"") = none ∧
+    decodeStr false (bytesOf "\\uDE00\\uD83D\"") = none := by decide +kernel
+
+example : isErr (parseDocument (bytesOf "\"\\uD83Dx\"").toArray) "Unpaired high surrogate in unicode escape" = true := by
+  decide +kernel
+
+/-- truncated documents end in an error message, not in an out-of-range read -/
+example : isErr (parseDocument (bytesOf "{").toArray) "Unexpected end of JSON input" = true ∧
+    isErr (parseDocument (bytesOf "-").toArray) "Unexpected end of JSON input" = true ∧
+    isErr (parseDocument (bytesOf "{\"a\":1,").toArray) "Unexpected end of JSON input" = true := by decide +kernel
+
+/-- a tree of depth 2 is produced (so `DepthLe` is not vacuously about scalars) -/
+example : (match parseDocument (bytesOf "[[1]]").toArray with
+    | .ok (.arr [.arr [.num t]]) => t == [0x31]
+    | _ => false) = true := by decide +kernel
 
 end EphVerif.C38
